@@ -504,18 +504,21 @@ end SigAdd
 
 Every theorem above reads `KmerMinHashBTree::add_hash_with_abundance` as `Sk.addT`, which takes the
 largest stored hash where the code reads the cached field `current_max`.  `new` + insertions, `merge`,
-`Deserialize`, `From<KmerMinHash>`, `clear` and `remove_hash` of the cached value all leave the field
-exact; the public builder does not (it defaults to 0 when the hashes come in through `.mins(..)`, and
-`Clone` copies it).  `Sk.addTc` is the same code with the field as an explicit argument. -/
+`Deserialize`, `From<KmerMinHash>`, `clear`, `remove_hash` of the cached value and (since /repo
+04873e6) the builder's default all leave the field exact.  The one public route to a stale cache is
+the builder's explicit `.current_max(x)` setter (taken as it is; `Clone` copies it).  `Sk.addTc` is
+the same code with the field as an explicit argument. -/
 
 /-- **T-cache_exact**: with an exact cache the code is `Sk.addT` — the theorems of this file apply to
 every sketch whose `current_max` is its largest hash. -/
 theorem tree_add_cache_exact (s : Sk) (h a : Nat) : (s.addTc s.curMax h a).1 = s.addT h a :=
   addTc_fst s h a
 
-/-- **T-cache_stale** (the defect, stated for every sketch): a full num sketch of the tree type whose
-cache is 0 ignores every later non-zero hash — also the ones below its largest hash, which the
-bottom-`num` of the union must contain (findings/C03.json, corpus/C03/builder-stale-max.ops). -/
+/-- **T-cache_stale** (what an explicitly stale cache does, stated for every sketch): a full num sketch
+of the tree type whose cache is 0 ignores every later non-zero hash — also the ones below its largest
+hash, which the bottom-`num` of the union must contain.  Until /repo 04873e6 the builder produced this
+state by default (corpus/C03/builder-stale-max.ops keeps the inputs; `seeded/revert-fix-C03-builder-
+current-max`); now only `.current_max(0)` given by the caller does. -/
 theorem tree_add_stale_cache_refuses (s : Sk) (h a : Nat) (hm : s.maxHash = 0)
     (hfull : s.mins.length = s.num) (hne : s.mins ≠ []) (h0 : h ≠ 0) : s.addTc 0 h a = (s, 0) :=
   addTc_stale_full s h a hm hfull hne h0
